@@ -48,7 +48,7 @@ def run(repo: Repo, chk: Check) -> None:
     reg, cg = region(repo, world)
     chk.table("region", sorted(reg))
     chk.count("region functions", len(reg))
-    chk.require_min("region functions", 55)
+    chk.require_min("region functions", 42)  # 55 today; floors sit at ~3/4 so that merging helpers or replacing a loop by one call is not an alarm
     lens = Lengths(world)
     nsites = 0
     for q, f in sorted(reg.items()):
@@ -112,8 +112,8 @@ def run(repo: Repo, chk: Check) -> None:
                     reraises = any(isinstance(x, ast.Raise) for s in h.body for x in ast.walk(s))
                     chk.ob("O1", Site.of(f, h, f"except {unparse(h.type) if h.type else ''}"), reraises, "handler re-raises" if reraises else "an exception handler in the decrypt path continues normally: errors become silent results")
     chk.count("primitive sites", nsites)
-    chk.require_min("primitive sites", 60)
-    chk.require_min("region loops", 8)
+    chk.require_min("primitive sites", 45)
+    chk.require_min("region loops", 5)
     cyc = cg.recursive(reg)
     chk.ob("O2", Site("src/dpapi_ng", "unprotect region", 0, "no recursion in the region"), not cyc, "the call graph of the region is acyclic: stack depth is bounded by the code, not by the data" if not cyc else f"recursion {cyc[0]}: nesting depth of the input drives the stack")
     unresolved = {k: v for k, v in cg.unresolved.items() if k in reg}
@@ -340,12 +340,18 @@ def dict_key_ok(repo: Repo, world: World, f: Func, n: ast.Subscript) -> t.Tuple[
         d = rd.single_def(unparse(arg), call) if isinstance(arg, ast.Name) else None
         v = d.value if d is not None else None
         ok = False
-        if isinstance(v, ast.Call) and isinstance(v.func, ast.Attribute) and v.func.attr == "get" and isinstance(v.func.value, ast.Dict):
-            okv, vals = repo.try_fold(ast.List(elts=list(v.func.value.values), ctx=ast.Load()), caller.mod)
+        if isinstance(v, ast.Call) and isinstance(v.func, ast.Attribute) and v.func.attr == "get":
+            # TABLE.get(code) with a constant table (literal, module constant or its inverse comprehension)
+            okv, tbl = repo.try_fold(v.func.value, caller.mod)
+            vals = list(tbl.values()) if okv and isinstance(tbl, dict) else []
+            okv = okv and isinstance(tbl, dict) and all(isinstance(x, str) for x in vals)
             g = build(caller.node)
             nid = rd.node_of(call)
-            guarded = any(unparse(c) == unparse(arg) and pol for c, pol in (g.guards_of(nid) if nid is not None else []))
-            ok = okv and set(vals) <= keys and guarded
+            guards = g.guards_of(nid) if nid is not None else []
+            guarded = any(unparse(c) == unparse(arg) and pol for c, pol in guards) or any(
+                isinstance(c, ast.Compare) and len(c.ops) == 1 and unparse(c.left) == unparse(arg) and isinstance(c.comparators[0], ast.Constant) and c.comparators[0].value is None
+                and (isinstance(c.ops[0], ast.IsNot) and pol or isinstance(c.ops[0], ast.Is) and not pol) for c, pol in guards)
+            ok = bool(okv and vals and set(vals) <= keys and guarded)
         if not ok:
             return False, f"{caller.qual} can construct {f.cls.name} with a {key.attr} outside {sorted(keys)}: KeyError in {f.name}"
     return True, f"{key.attr} is always one of {sorted(keys)}: every construction site takes it from a guarded constant table or copies it"
